@@ -66,11 +66,12 @@ Definition int_of (v : value) : option Z :=
   end.
 
 (** double -> integer: truncation toward zero, clamped; +-inf clamp.  NaN, and a value that equals
-    the ROUNDED maximum (2^63 for Int64, 2^64 for UInt64: HDF5 compares against (double)MAX and then
-    casts) are C undefined behaviour inside HDF5's conversion routine: [UB] (outside the domain of the
-    check; on this platform NaN gives INT_MIN / INT64_MIN / 0 / 2^63, 2^63 gives INT64_MIN and 2^64
-    gives 0). *)
-Definition d2i (t : vtype) (d : F64) : res value :=
+    the ROUNDED maximum (HDF5 compares against (source type)MAX and then casts: 2^63 for Int64 and 2^64
+    for UInt64 from a double; from a FLOAT source also 2^31 for Int32 and 2^32 for UInt32) are C undefined
+    behaviour inside HDF5's conversion routine: [UB] (outside the domain of the check; on this platform
+    NaN gives INT_MIN / INT64_MIN / 0 / 2^63, the rounded maximum gives the minimum / 0).
+    [fl]: the source element is a float (the column templates with T = float). *)
+Definition d2i (fl : bool) (t : vtype) (d : F64) : res value :=
   match d with
   | B754_nan => UB "double NaN converted to an integer member"
   | B754_infinity s => Ok (mk_int t (if s then int_lo t else int_hi t))
@@ -78,28 +79,119 @@ Definition d2i (t : vtype) (d : F64) : res value :=
     let z := Btrunc d in
     if (z <? int_lo t)%Z then Ok (mk_int t (int_lo t))
     else if (int_hi t <? z)%Z then
-      if (z =? int_hi t + 1)%Z && negb (int_hi t <? 4294967296)%Z
-      then UB "double equal to the rounded integer maximum converted to a 64-bit integer member"
+      if (z =? int_hi t + 1)%Z && (fl || negb (int_hi t <? 4294967296)%Z)
+      then UB "floating-point value equal to the rounded integer maximum converted to an integer member"
       else Ok (mk_int t (int_hi t))
     else Ok (mk_int t z)
   end.
 
 (** convert one value to the member type [d]; [Err] = no conversion path *)
-Definition conv (d : vtype) (v : value) : res value :=
+Definition conv_gen (fl : bool) (d : vtype) (v : value) : res value :=
   if vtype_eqb (type_of v) d then Ok v
   else if negb (convertible (type_of v) d) then Err H5ERR
   else if is_int d then
     match v with
-    | VDouble x => d2i d x
+    | VDouble x => d2i fl d x
     | _ => match int_of v with Some z => Ok (mk_int d (clamp d z)) | None => Err H5ERR end
     end
   else (* d = TDouble *)
     match int_of v with Some z => Ok (VDouble (ofZ z)) | None => Err H5ERR end.
 
-Fixpoint conv_all (d : vtype) (vs : list value) : res (list value) :=
+Definition conv : vtype -> value -> res value := conv_gen false.
+
+Fixpoint conv_all_gen (fl : bool) (d : vtype) (vs : list value) : res (list value) :=
   match vs with
   | [] => Ok []
-  | v :: r => bind (conv d v) (fun v' => bind (conv_all d r) (fun r' => Ok (v' :: r')))
+  | v :: r => bind (conv_gen fl d v) (fun v' => bind (conv_all_gen fl d r) (fun r' => Ok (v' :: r')))
+  end.
+
+Definition conv_all : vtype -> list value -> res (list value) := conv_all_gen false.
+
+(** ** Element types of the column templates beyond the seven
+
+    [readColumn<T>] / [writeColumn<T>] compile for every element type Hydra knows.  Besides the six a
+    Variant can hold: int8/int16/uint8/uint16 and float ([TOther "Int8"] ...), for which HDF5 converts
+    like for their wider relatives, and char ([TBad "Char"]), for which [data_type_to_h5_memtype]
+    throws.  The model carries a small integer as the 32-bit integer of the same signedness and a
+    float as the double of the same value ([elt_carrier]); what is particular to the narrow type is the
+    clamping / rounding when such an element is READ ([conv_elt]). *)
+Definition small_range (t : vtype) : option (Z * Z) :=
+  match t with
+  | TOther n =>
+    if String.eqb n "Int8" then Some (-128, 127)%Z
+    else if String.eqb n "Int16" then Some (-32768, 32767)%Z
+    else if String.eqb n "UInt8" then Some (0, 255)%Z
+    else if String.eqb n "UInt16" then Some (0, 65535)%Z
+    else None
+  | _ => None
+  end.
+
+Definition is_float_elt (t : vtype) : bool :=
+  match t with TOther n => String.eqb n "Float" | _ => false end.
+
+Definition elt_carrier (t : vtype) : vtype :=
+  match small_range t with
+  | Some (lo, _) => if (lo <? 0)%Z then TInt32 else TUInt32
+  | None => if is_float_elt t then TDouble else t
+  end.
+
+(** [data_type_to_h5_memtype(T)] succeeds *)
+Definition elt_has_memtype (t : vtype) : bool := supported (elt_carrier t).
+
+(** IEEE-754 binary32, only as a rounding step: a double rounded to the nearest float (ties to even), kept as a double *)
+Lemma Hprec32 : FLX.Prec_gt_0 24. Proof. reflexivity. Qed.
+Lemma Hmax32 : Prec_lt_emax 24 128. Proof. reflexivity. Qed.
+
+Definition widen32 (x : binary_float 24 128) : F64 :=
+  match x with
+  | B754_zero s => B754_zero s
+  | B754_infinity s => B754_infinity s
+  | B754_nan => B754_nan
+  | B754_finite s m e _ => binary_normalize prec emax Hprec Hmax mode_NE (if s then Zneg m else Zpos m) e s
+  end.
+
+Definition round32 (neg : bool) (m e : Z) : F64 :=
+  widen32 (binary_normalize 24 128 Hprec32 Hmax32 mode_NE m e neg).
+
+Definition FLT_MAX : F64 := ofME 16777215 104.
+
+(** double -> float as HDF5 does it: beyond +-FLT_MAX the result is the infinity (also where rounding to
+    nearest would still give FLT_MAX), otherwise round to nearest even *)
+Definition to_f32 (d : F64) : F64 :=
+  match d with
+  | B754_finite s m e _ =>
+    if flt FLT_MAX d then B754_infinity false
+    else if flt d (fneg FLT_MAX) then B754_infinity true
+    else round32 s (if s then Zneg m else Zpos m) e
+  | _ => d
+  end.
+
+(** integer -> float: one rounding to the nearest float *)
+Definition z_to_f32 (z : Z) : F64 := round32 false z 0.
+
+(** convert a stored cell to the element type [t] of a column read *)
+Definition conv_elt (t : vtype) (v : value) : res value :=
+  match small_range t with
+  | Some (lo, hi) =>
+    bind (conv (elt_carrier t) v) (fun v' =>
+    match int_of v' with
+    | Some z => Ok (mk_int (elt_carrier t) (if (z <? lo)%Z then lo else if (hi <? z)%Z then hi else z))
+    | None => Err H5ERR
+    end)
+  | None =>
+    if is_float_elt t then
+      if negb (convertible (type_of v) TDouble) then Err H5ERR
+      else match v with
+           | VDouble d => Ok (VDouble (to_f32 d))
+           | _ => match int_of v with Some z => Ok (VDouble (z_to_f32 z)) | None => Err H5ERR end
+           end
+    else conv t v
+  end.
+
+Fixpoint conv_elt_all (t : vtype) (vs : list value) : res (list value) :=
+  match vs with
+  | [] => Ok []
+  | v :: r => bind (conv_elt t v) (fun v' => bind (conv_elt_all t r) (fun r' => Ok (v' :: r')))
   end.
 
 (** * Lists of rows *)
@@ -165,6 +257,7 @@ Inductive fop :=
 | FRCell (row : Z) (c : cref)
 | FRCol (c : cref) (t : vtype) (cnt : option Z) (resize : bool) (off : Z) (pre : list value)
 | FColIdx (s : string) | FColName (i : Z)
+| FColIdxs (names : list string) | FColNames (idxs : list Z)     (* the vector overloads of colIndex / colName *)
 | FReopen (ro : bool).
 
 Definition rcell := (Z * string * value)%type.            (* Cell: col (position in the request), name, value *)
@@ -176,7 +269,9 @@ Inductive fanswer :=
 | FVals (vs : list value)
 | FCells (cs : list rcell)
 | FCell (c : rcell)
-| FStr (s : string).
+| FStr (s : string)
+| FNums (ns : list Z)
+| FStrs (ss : list string).
 
 (** * Argument validation: what a call assigns / fetches, or which exception it raises *)
 
@@ -262,15 +357,16 @@ Definition plan_column (cols : list column) (nr : nat) (ro : bool) (c : cref) (t
   bind (colarg_name cols c) (fun name =>
   let cnt' := if (cnt =? 0)%Z then zlen vs else cnt in
   if (zlen vs <? cnt')%Z then Err OOB                                 (* "Requested to write more data than available" *)
+  else if negb (elt_has_memtype t) then Err INVARG                    (* data_type_to_h5_memtype(Char) *)
   else if ro then Err H5ERR
   else match find_col name cols with
   | None =>                                                           (* no such member: nothing is transferred *)
     if (cnt' =? 0)%Z || (off + cnt' <=? Z.of_nat nr)%Z then Ok [] else Err H5ERR
   | Some ci =>
-    if negb (convertible t (col_type cols ci)) then Err H5ERR
+    if negb (convertible (elt_carrier t) (col_type cols ci)) then Err H5ERR
     else if (cnt' =? 0)%Z then Ok []
     else if negb ((0 <=? off) && (off + cnt' <=? Z.of_nat nr))%Z then Err H5ERR
-    else bind (conv_all (col_type cols ci) (firstn (Z.to_nat cnt') vs)) (fun vs' =>
+    else bind (conv_all_gen (is_float_elt t) (col_type cols ci) (firstn (Z.to_nat cnt') vs)) (fun vs' =>
          Ok (col_puts ci (Z.to_nat off) vs'))
   end).
 
@@ -322,8 +418,9 @@ Definition plan_read_column (cols : list column) (nr : nat) (c : cref) (t : vtyp
                   else Ok (zlen pre)
         end) (fun k =>
   if negb rs && (zlen pre <? k)%Z then Err OOB                       (* "Vector not big enough for requested data" *)
+  else if negb (elt_has_memtype t) then Err INVARG                   (* data_type_to_h5_memtype(Char) *)
   else
-  let pre' := if rs then resize (Z.to_nat k) (default_of t) pre else pre in
+  let pre' := if rs then resize (Z.to_nat k) (default_of (elt_carrier t)) pre else pre in
   match find_col name cols with
   | None =>
     if (k =? 0)%Z then Ok {| rp_k := O; rp_off := O; rp_src := None; rp_pre := pre' |}
@@ -331,7 +428,7 @@ Definition plan_read_column (cols : list column) (nr : nat) (c : cref) (t : vtyp
          then UB "readColumn of a name the frame does not have: the content of the buffer is unspecified"
          else Err H5ERR
   | Some ci =>
-    if negb (convertible (col_type cols ci) t) then Err H5ERR
+    if negb (convertible (col_type cols ci) (elt_carrier t)) then Err H5ERR
     else if (k =? 0)%Z then Ok {| rp_k := O; rp_off := O; rp_src := Some ci; rp_pre := pre' |}
     else if negb ((0 <=? off) && (0 <=? k) && (off + k <=? Z.of_nat nr))%Z then Err H5ERR
     else Ok {| rp_k := Z.to_nat k; rp_off := Z.to_nat off; rp_src := Some ci; rp_pre := pre' |}
@@ -343,8 +440,8 @@ Definition overlay (vs pre : list value) : list value := vs ++ skipn (List.lengt
 (** finish a column read: convert the fetched cells to the caller's element type *)
 Definition finish_read (t : vtype) (p : rplan) (fetched : list value) : res (list value) :=
   match rp_src p with
-  | None => Ok (overlay (repeat (default_of t) (rp_k p)) (rp_pre p))
-  | Some _ => bind (conv_all t fetched) (fun vs => Ok (overlay vs (rp_pre p)))
+  | None => Ok (overlay (repeat (default_of (elt_carrier t)) (rp_k p)) (rp_pre p))
+  | Some _ => bind (conv_elt_all t fetched) (fun vs => Ok (overlay vs (rp_pre p)))
   end.
 
 (** [Block::createDataFrame] on a fresh block, as of /repo a3cfdfc.  Front-end, in this order: name/type
@@ -373,6 +470,23 @@ Definition answer_cells (cs : list (Z * string * nat)) (get : nat -> value) : li
 
 Definition first_cell (cs : list rcell) : rcell :=
   match cs with c0 :: _ => c0 | [] => (0%Z, "", VNone) end.
+
+(** [DataFrameHDF5::colIndex(vector<string>)] / [colName(vector<unsigned>)]: the backend's own loops, element by
+    element, the first failure ends the call *)
+Fixpoint col_indices (cols : list column) (names : list string) : res (list Z) :=
+  match names with
+  | [] => Ok []
+  | n :: r => match find_col n cols with
+              | Some c => bind (col_indices cols r) (fun l => Ok (Z.of_nat c :: l))
+              | None => Err H5EXC
+              end
+  end.
+
+Fixpoint col_names (cols : list column) (idxs : list Z) : res (list string) :=
+  match idxs with
+  | [] => Ok []
+  | i :: r => bind (col_name cols i) (fun n => bind (col_names cols r) (fun l => Ok (n :: l)))
+  end.
 
 (** * The model: the frame as its list of rows *)
 
@@ -435,6 +549,8 @@ Definition fstep (o : fop) (s : dstate) : dstate * res fanswer :=
   | FColIdx n => ask_frame s (fun f => match find_col n (fr_cols f) with
                                        | Some c => Ok (FNum (Z.of_nat c)) | None => Err H5EXC end)
   | FColName i => ask_frame s (fun f => bind (col_name (fr_cols f) i) (fun n => Ok (FStr n)))
+  | FColIdxs ns => ask_frame s (fun f => bind (col_indices (fr_cols f) ns) (fun l => Ok (FNums l)))
+  | FColNames is => ask_frame s (fun f => bind (col_names (fr_cols f) is) (fun l => Ok (FStrs l)))
   | FReopen ro => ({| d_frame := d_frame s; d_ro := ro |}, Ok (match d_frame s with Some _ => FDone | None => FNoFrame end))
   end.
 
@@ -551,6 +667,8 @@ Definition sstep (o : fop) (s : sstate) : sstate * verdict :=
   | FColIdx n => sask s (fun f => match find_col n (sf_cols f) with
                                   | Some c => Ok (FNum (Z.of_nat c)) | None => Err H5EXC end)
   | FColName i => sask s (fun f => bind (col_name (sf_cols f) i) (fun n => Ok (FStr n)))
+  | FColIdxs ns => sask s (fun f => bind (col_indices (sf_cols f) ns) (fun l => Ok (FNums l)))
+  | FColNames is => sask s (fun f => bind (col_names (sf_cols f) is) (fun l => Ok (FStrs l)))
   | FReopen ro => ({| s_frame := s_frame s; s_ro := ro |}, Must (match s_frame s with Some _ => FDone | None => FNoFrame end))
   end.
 
